@@ -152,7 +152,7 @@ CHECKS["C05"] = dict(
 )
 CHECKS["C02"] = dict(
     text=("Dijkstra (weight factor 0), vertex-oriented, edge costs independent of how the edge was reached: by induction over the iterations of the real search loop (sliced from the "
-          "current source), for EVERY directed graph with 2 vertices and 1-2 edges (parallel, anti-parallel edges and self loops compete), every edge mask, cost assignment, direction, origin and "
+          "current source), for EVERY directed graph with 2 vertices and 1 edge (quick) or 2 edges (thorough: parallel, anti-parallel edges and self loops compete), every edge mask, cost assignment, direction, origin and "
           "destination, CBMC decides that closed vertices carry their least cost (Bellman-Ford oracle over the symbolic edge table, bit-exact), hence the destination is reached with "
           "least cost and a search without destination labels every tree vertex with its least cost; the cost accumulated along a tree path equals the label. Partial: A* is not decided."),
     design_ref="DESIGN.md section 9.6",
